@@ -1327,6 +1327,45 @@ fn fam_idxsig(_func: Option<&str>, only: Option<u64>) {
             }
         } } }
     } }
+    // fourth part: an INTERSECTION on the left of an index-signature type and an object with a declared property, in
+    // both conversion orders (intersect_mapping folds the positive atoms one by one), against object types with
+    // optional properties
+    // (the signature's value type is string or string | number: with `number` the declared `a: string` contradicts the
+    //  signature and the intersection is empty, which intersect_mapping does not see - it intersects declared
+    //  properties with each other only; noted in DESIGN.md, not part of this family)
+    for order in [false, true] { for lt in [0usize, 2usize] {
+        let vt = || if lt == 0 { Runtype::string() } else if lt == 1 { Runtype::number() } else { strnum() };
+        let rec_t = Runtype::record(Runtype::string(), vt().required());
+        let obj_t = Runtype::object(vec![("a".to_string(), Runtype::string().required())]);
+        let left = if order { Runtype::all_of(vec![rec_t.clone(), obj_t.clone()]) } else { Runtype::all_of(vec![obj_t.clone(), rec_t.clone()]) };
+        let lm = |o: &Vec<(&'static str, bool)>| -> bool {
+            // member of both: a present and a string; every key (a included) has a value of the signature's type
+            match o.iter().find(|(k, _)| *k == "a") { Some((_, isnum)) => { if *isnum { return false; } } None => return false }
+            o.iter().all(|(_, isnum)| lt == 2 || (*isnum == (lt == 1)))
+        };
+        // right sides: { a: string, xa?: T } and { xa?: T } for T in string, number
+        for with_a in [false, true] { for rt in 0..2usize {
+            if !rep.want() { continue; }
+            let xt = if rt == 0 { Runtype::string() } else { Runtype::number() };
+            let mut fields = vec![("xa".to_string(), xt.optional())];
+            if with_a { fields.push(("a".to_string(), Runtype::string().required())); }
+            let right = Runtype::object(fields);
+            let rm = |o: &Vec<(&'static str, bool)>| -> bool {
+                if with_a { match o.iter().find(|(k, _)| *k == "a") { Some((_, isnum)) => { if *isnum { return false; } } None => return false } }
+                match o.iter().find(|(k, _)| *k == "xa") { Some((_, isnum)) => *isnum == (rt == 1), None => true }
+            };
+            let spec = all_objs.iter().all(|o| !lm(o) || rm(o));
+            let mut ctx = SemTypeContext::new();
+            // the order of the two conversions is the order of the atoms
+            let (Ok(ta), Ok(tb)) = (left.to_sem_type(&[], &mut ctx), right.to_sem_type(&[], &mut ctx)) else { continue };
+            if let Ok(r) = ta.is_subtype(&tb, &mut ctx) {
+                if r != spec {
+                    rep.fail(format!("({}) <: {{{}xa?: {}}}", if order { format!("{{[k: string]: {}}} & {{a: string}}", ["string", "number", "string | number"][lt]) } else { format!("{{a: string}} & {{[k: string]: {}}}", ["string", "number", "string | number"][lt]) }, if with_a { "a: string, " } else { "" }, ["string", "number"][rt]),
+                        format!("is_subtype = {}", r), format!("{} (brute force over the 27 objects with keys a, xa, 1)", spec));
+                }
+            }
+        } }
+    } }
     rep.print();
 }
 
@@ -1372,6 +1411,45 @@ fn fam_listidx(_func: Option<&str>, only: Option<u64>) {
             }
         }
     }
+    rep.print();
+}
+
+// C07 (mechanism `keyof`), bounded: keyof A, keyof (A & B), keyof (A | B) for object atoms A, B whose declared
+// keys are the non-empty subsets of {a, b, c} (string values), built as diagrams (two positive atoms in one
+// clause for the intersection). Oracle: the declared keys of A; their union for A & B; their intersection for A | B.
+fn fam_keyof(_func: Option<&str>, only: Option<u64>) {
+    let mut rep = Rep::new("keyof", "keyof", only);
+    let names = ["a", "b", "c"];
+    let subsets: Vec<Vec<&'static str>> = (1..8u8).map(|m| (0..3).filter(|i| (m >> i) & 1 == 1).map(|i| names[i]).collect()).collect();
+    let keys_ty = |ks: &Vec<&'static str>| -> Rc<SemType> {
+        if ks.is_empty() { return Rc::new(SemTypeContext::never()); }
+        Rc::new(SemType::new_complex(0, vec![Rc::new(ProperSubtype::String { allowed: true, values: { let mut v: Vec<StringLitOrFormat> = ks.iter().map(|k| strc(k)).collect(); v.sort(); v } })]))
+    };
+    for a in &subsets { for b in &subsets { for op in 0..3 {
+        if !rep.want() { continue; }
+        if op == 0 && a != b { continue; }
+        let mut ctx = SemTypeContext::new();
+        let mk = |ctx: &mut SemTypeContext, ks: &Vec<&'static str>| {
+            let mut vs = BTreeMap::new();
+            for k in ks { vs.insert(k.to_string(), Rc::new(SemTypeContext::string())); }
+            Rc::new(ctx.mapping_definition(vs, None))
+        };
+        let ta = mk(&mut ctx, a);
+        let tb = mk(&mut ctx, b);
+        let (descr, t, expect): (String, Rc<SemType>, Vec<&'static str>) = match op {
+            0 => (format!("keyof {{{:?}}}", a), ta.clone(), a.clone()),
+            1 => (format!("keyof ({{{:?}}} & {{{:?}}})", a, b), match ta.intersect(&tb) { Ok(x) => x, Err(_) => continue }, names.iter().filter(|k| a.contains(k) || b.contains(k)).cloned().collect()),
+            _ => (format!("keyof ({{{:?}}} | {{{:?}}})", a, b), match ta.union(&tb) { Ok(x) => x, Err(_) => continue }, names.iter().filter(|k| a.contains(k) && b.contains(k)).cloned().collect()),
+        };
+        match ctx.keyof(t) {
+            Ok(r) => match r.is_same_type(&keys_ty(&expect), &mut ctx) {
+                Ok(true) => {}
+                Ok(false) => rep.fail(descr, format!("keyof = {:?}", r), format!("the keys {:?}", expect)),
+                Err(e) => rep.fail(descr, format!("is_same_type Err({})", e), "true".into()),
+            },
+            Err(_) => {}
+        }
+    } } }
     rep.print();
 }
 
@@ -1692,6 +1770,7 @@ fn main() {
         "listneg2" => fam_listneg2(f, only),
         "idxsig" => fam_idxsig(f, only),
         "listidx" => fam_listidx(f, only),
+        "keyof" => fam_keyof(f, only),
         "refs" => fam_refs(f, only, false, false),
         "refspanic" => fam_refs(f, only, true, false),
         "refsshared" => fam_refs(f, only, false, true),
